@@ -87,6 +87,8 @@ pub fn energy_performance(
     // Compute balance for each carrier and accumulate partial balance values for total balance
     let mut balance_cr: HashMap<Carrier, BalanceCarrier> = HashMap::new();
     for cr in &components.available_carriers() {
+        #[cfg(feature = "verif_hooks")]
+        crate::verif_hooks::observe("balance::energy_performance::carrier", cr.to_string());
         // Compute balance for this carrier ---
         let bal_cr = balance_for_carrier(*cr, &components, &wfactors, k_exp, load_matching)?;
         // Add up to the global balance
@@ -287,6 +289,8 @@ fn compute_used_produced(
     // Generation for this carrier from each source for all time steps
     let mut E_pr_cr_j_an = HashMap::<ProdSource, f32>::new();
     for (source, prod_cr_j) in &E_pr_cr_j_t {
+        #[cfg(feature = "verif_hooks")]
+        crate::verif_hooks::observe("balance::compute_used_produced::source", format!("{}:{}", carrier, source));
         E_pr_cr_t = vecvecsum(&E_pr_cr_t, prod_cr_j);
         E_pr_cr_j_an.insert(*source, vecsum(prod_cr_j));
     }
